@@ -331,7 +331,14 @@ class RealWorld:
             out = []
             for o in self.objs:
                 k = o['k']
-                out.append('%sL%d|%s' % (self.key_s(k), self.lock_state(k), '-' if k.is_public else self.key_s(k.pubkey)))
+                if k.is_public:
+                    out.append('%sL%d|-' % (self.key_s(k), self.lock_state(k)))
+                    continue
+                # the twin derived NOW must show the key as it is now, also while an EARLIER twin of the same key is still referenced
+                # somewhere (a caller that kept `pub = key.pubkey`): the previous one is kept alive on purpose
+                twin = k.pubkey
+                o['held_twin'] = twin
+                out.append('%sL%d|%s' % (self.key_s(k), self.lock_state(k), self.key_s(twin)))
             return ' '.join(out) or 'EMPTY'
 
     # ---- direct oracle on the real code
